@@ -36,6 +36,11 @@ CORE = {
         'kind=flush,ctor=std,calls=F3.F0t,k=a,closers=1',
         'kind=flush,ctor=std,calls=W4t.W3t.W2t,k=0.a.0.a.0,closers=0',
         'kind=flush,ctor=std,calls=W4.W3.W2,k=0.a.0.a.0,closers=0',
+        # more non-empty nodes in the output buffer than one GetBytes/sendmsg vector holds (barriercap = 32): the kernel can
+        # accept everything it was OFFERED while part of the buffer has not been offered yet
+        'kind=flush,ctor=std,calls=V40.F0,k=a,closers=0',
+        'kind=flush,ctor=std,calls=V70.F3t,k=a.0.a,closers=0',
+        'kind=flush,ctor=fd,calls=V33.W2,k=100.a,closers=1',
         # small ones, exhausted at the bound
         'kind=flush,ctor=std,calls=W4,k=0,closers=0',
         'kind=flush,ctor=std,calls=W4t,k=0.0,closers=0',
@@ -52,7 +57,7 @@ def product_space(prop):
         for ctor, c, ev, cl in itertools.product(['std', 'fd'], calls, evs, [0, 1, 2]):
             out.append('kind=read,ctor=%s,calls=%s,ev=%s,closers=%d' % (ctor, c, ev, cl))
     else:
-        calls = ['W4', 'W4t', 'W4d', 'W4x', 'W4.W3', 'W4t.W3', 'M2.F3', 'M2.F3t.F0', 'F0.W5', 'W6.F0.W2t', 'F4x.W1', 'W3.W3.W3']
+        calls = ['W4', 'W4t', 'W4d', 'W4x', 'W4.W3', 'W4t.W3', 'M2.F3', 'M2.F3t.F0', 'F0.W5', 'W6.F0.W2t', 'F4x.W1', 'W3.W3.W3', 'V36.F0', 'V33.W1t', 'V65.F0.W2']
         ks = ['-', '0', '0.0', '0.0.0', '1', '2.0', '0.1.0', '3.0.a.0', 'a.0', '0.a.0.2']
         for ctor, c, k, cl, ev, f2 in itertools.product(['std', 'fd'], calls, ks, [0, 1, 2], ['-', 'h'], [0, 1]):
             out.append('kind=flush,ctor=%s,calls=%s,k=%s,ev=%s,closers=%d,f2=%d' % (ctor, c, k, ev, cl, f2))
